@@ -239,6 +239,7 @@ def run_siblings(desc):
     rng = random.Random(desc["seed"])
     stem = rng.choice(["x", "summary", "v.1", "data.2021", "r"])
     kinds = rng.sample([("json", JsonFileStore, g1), ("pkl", PickleFileStore, g2), ("txt", TextFileStore, g3)], rng.choice([2, 3]))
+    use_pathlib = rng.random() < 0.5
     base = tempfile.mkdtemp(prefix="vmon-c08s-")
     counters = {"sibling_cases": 1, "sibling_interleaved_ops": 0, "sibling_cases_all_opened_before_first_write": 0}
     bad = None
@@ -254,7 +255,10 @@ def run_siblings(desc):
             name = f"{stem}.{ext}" if rng.random() < 0.85 else stem  # sometimes one file name is a prefix of the others
             if any(name == s_[0] for s_ in sib):
                 name = f"{stem}.{ext}"
-            st = cls(os.path.join(base, name))
+            import pathlib
+
+            pth = os.path.join(base, name)
+            st = cls(pathlib.Path(pth) if use_pathlib else pth)
             nd = plan.call(fn, a)
             reg.add(nd, st)
             sib.append((name, st, fn))
@@ -298,7 +302,7 @@ def run_siblings(desc):
     res = {"status": "ok", "counters": counters, "nontrivial": counters["sibling_cases_all_opened_before_first_write"] > 0,
            "sig": hashlib.sha1(f"siblings|{stem}|{[k[0] for k in kinds]}|{desc['seed'] % 1000}".encode()).hexdigest()[:16]}
     if bad:
-        res.update(status="violation", detail=f"[file-backed siblings] {bad}", mechanism="cut-repair-file", witness={"desc": desc})
+        res.update(status="violation", detail=f"[file-backed siblings, {'pathlib' if use_pathlib else 'str'} paths] {bad}", mechanism=desc.get("mechanism", "cut-repair-file"), witness={"desc": desc})
     return res
 
 
